@@ -911,6 +911,11 @@ def p6_world_len(prog):
                 lf = last_field(body, {'copy': s['place']})
                 if lf and lf[0] == 'world::World' and lf[1] == li:
                     writes.append((b, i, s))
+            # a mutable borrow of the field (`let Self { len, .. } = self`, `&mut self.len`) is a writer too
+            if s['k'] == 'assign' and s['rv']['k'] in ('ref', 'rawptr') and s['rv'].get('mut') and s['rv']['place']['p']:
+                lf = last_field(body, {'copy': s['rv']['place']})
+                if lf and lf[0] == 'world::World' and lf[1] == li:
+                    writes.append((b, i, s))
         if not writes:
             continue
         top = owner_fn(prog, f)
